@@ -9,7 +9,7 @@
 From Dnp3V Require Export App.Grammar.
 Open Scope N_scope.
 
-Inductive awerr := WEOverflow | WEBadSeek | WENumeric.
+Inductive awerr := WEOverflow | WEBadSeek | WENumeric | WEAttrLength.
 
 Inductive awop := WoBytes (bs : list N) | WoSkip (k : N).
 
@@ -24,6 +24,32 @@ Fixpoint awfits (remaining : N) (ops : list awop) : option awerr :=
       if k <=? remaining then awfits (remaining - k) r else Some WEBadSeek
   end.
 
+(* OwnedAttrValue (integers as u32 bit patterns, floats as bit patterns) *)
+Inductive awattr :=
+| WaVStr (b : list N) | WaUInt (x : N) | WaInt (x : N) | WaF32 (x : N) | WaF64 (x : N)
+| WaOStr (b : list N) | WaBStr (b : list N) | WaTime (x : N).
+
+(* OwnedAttrValue::write: type code, length, payload.  Integers take the shortest of 1, 2, 4 bytes that
+   UInt::new / Int::new choose (the upper bounds of Int's ranges are exclusive); None = BadLength *)
+Definition aw_attr_value (val : awattr) : option (list N) :=
+  let str code b := if N.of_nat (length b) <=? 255 then Some (code :: N.of_nat (length b) :: b) else None in
+  match val with
+  | WaVStr b => str attr_visible_string b
+  | WaOStr b => str attr_octet_string b
+  | WaBStr b => str attr_bit_string b
+  | WaUInt x =>
+      Some (if x <=? 255 then [attr_unsigned_int; 1; x]
+            else if x <=? 65535 then attr_unsigned_int :: 2 :: ale_bytes 2 x
+            else attr_unsigned_int :: 4 :: ale_bytes 4 x)
+  | WaInt x =>
+      Some (if (x <? 127) || (4294967168 <=? x) then [attr_signed_int; 1; x mod 256]
+            else if (x <? 32767) || (4294934528 <=? x) then attr_signed_int :: 2 :: ale_bytes 2 x
+            else attr_signed_int :: 4 :: ale_bytes 4 x)
+  | WaF32 x => Some (attr_floating_point :: 4 :: ale_bytes 4 x)
+  | WaF64 x => Some (attr_floating_point :: 8 :: ale_bytes 8 x)
+  | WaTime x => Some (attr_dnp3_time :: 6 :: ale_bytes 6 x)
+  end.
+
 Inductive awheader :=
 | WAll (g v : N)
 | WRange8 (g v start stop : N)
@@ -33,7 +59,8 @@ Inductive awheader :=
 | WClasses (c1 c2 c3 c0 : bool)
 | WPrefixed (g v psize : N) (items : list (N * list N))      (* (index, object as T::read accepts it) *)
 | WCountOfOne (g v : N) (obj : list N)
-| WClearRestart.
+| WClearRestart
+| WAttr (set var : N) (val : awattr).
 
 (* T::write of T::read of the given bytes (the harness builds the objects with the production `read`) *)
 Definition arewrite (g v : N) (obj : list N) : list N :=
@@ -68,43 +95,40 @@ Definition aw_bytes (h : awheader) : list N :=
       ++ concat (map (aw_item g v psize) items)
   | WCountOfOne g v obj => [g; v; q_count8; 1] ++ arewrite g v obj
   | WClearRestart => [80; 1; q_range8; 7; 7; 0]
+  | WAttr set var val => [0; var; q_range8; set; set] ++ match aw_attr_value val with Some b => b | None => [] end
   end.
 
 (* the cursor operations that produce them, in order *)
-Definition aw_ops (h : awheader) : list awop :=
+(* ... and the error, if any, that is raised once they have all succeeded: a prefixed header refuses the
+   item that does not fit its count field (NumericOverflow), an attribute string longer than 255 bytes
+   is refused after the header has been written (BadLength) *)
+Definition aw_ops (h : awheader) : list awop * option awerr :=
   match h with
   | WPrefixed g v psize items =>
-      WoBytes [g; v; 0] :: WoSkip psize :: map (fun it => WoBytes (aw_item g v psize it)) items
-  | _ => [WoBytes (aw_bytes h)]
+      let fits := N.of_nat (length items) <=? aw_max_count psize in
+      let written := if fits then items else firstn (N.to_nat (aw_max_count psize)) items in
+      (WoBytes [g; v; 0] :: WoSkip psize :: map (fun it => WoBytes (aw_item g v psize it)) written,
+       if fits then None else Some WENumeric)
+  | WAttr set var val =>
+      match aw_attr_value val with
+      | Some b => ([WoBytes [0; var; q_range8; set; set]; WoBytes b], None)
+      | None => ([WoBytes [0; var; q_range8; set; set]], Some WEAttrLength)
+      end
+  | _ => ([WoBytes (aw_bytes h)], None)
   end.
 
-(* items beyond the capacity of the count field cannot be written (NumericOverflow) *)
-Definition aw_numeric_ok (h : awheader) : bool :=
-  match h with
-  | WPrefixed _ _ psize items => N.of_nat (length items) <=? aw_max_count psize
-  | _ => true
-  end.
-
-(* the error of the first header that fails: its count overflows before the item is written, or an
-   operation does not fit *)
+(* the error of the first header that fails *)
 Fixpoint aw_run (remaining : N) (hs : list awheader) : option awerr :=
   match hs with
   | [] => None
   | h :: r =>
-      let ops := if aw_numeric_ok h
-                 then aw_ops h
-                 else match h with
-                      | WPrefixed g v psize items =>
-                          WoBytes [g; v; 0] :: WoSkip psize
-                          :: map (fun it => WoBytes (aw_item g v psize it)) (firstn (N.to_nat (aw_max_count psize)) items)
-                      | _ => aw_ops h
-                      end in
-      match awfits remaining ops with
+      match awfits remaining (fst (aw_ops h)) with
       | Some e => Some e
       | None =>
-          if aw_numeric_ok h
-          then aw_run (remaining - N.of_nat (length (aw_bytes h))) r
-          else Some WENumeric
+          match snd (aw_ops h) with
+          | Some e => Some e
+          | None => aw_run (remaining - N.of_nat (length (aw_bytes h))) r
+          end
       end
   end.
 
